@@ -53,7 +53,7 @@ Targets == <<
   [T |-> St(<<F("O", 1, "", [k |-> "jsonobj"]), F("A", 2, "", [k |-> "jsonarr"]), F("Z", 3, "", I64)>>), cfg |-> "jsonany"],
   [T |-> [k |-> "ref", n |-> "RecS"], cfg |-> "default"]
 >>
-CfgOf(n) == [protoTime |-> (n = "pt"), protoArrays |-> (n = "pa"), nullProto |-> FALSE, flatUnsigned |-> FALSE, timeAsZigZag |-> FALSE]
+CfgOf(n) == [protoTime |-> (n = "pt"), protoArrays |-> (n = "pa"), nullProto |-> FALSE, flatUnsigned |-> FALSE, timeAsZigZag |-> FALSE, marker |-> "none"]
 
 \* the schema-less walk makes progress: it fails, or its frames tile the input exactly, each at least one byte
 WalkProgress == LET fr == Frames(s) IN
